@@ -47,12 +47,13 @@ def items(tier, seed):
                 for g in range(6):
                     out.append(("commb.cap17-28-g%d" % g, {"fn": name, "len": 28, "cap_group": g, "patterns": pats}))
                 continue
-            if spec.get("pair") and ln == 28 and tier == "quick":
-                # quick: the CPR fields are concrete (seeded + extremes); DF / TC / parity / every other bit symbolic.
-                # thorough: everything symbolic.
-                seeds = [(0, 0, 0, 0), (131071, 131071, 131071, 131071),
-                         tuple(rnd.getrandbits(17) for _ in range(4))]
-                out.append(("%s-%d" % (name, ln), {"fn": name, "len": ln, "cpr_seeds": seeds}))
+            if spec.get("pair") and ln == 28 and not (tier == "thorough" and name == "adsb.airborne_position"):
+                # the CPR fields are concrete (extremes + seeded; 3 sets quick, 10 thorough); DF / TC / parity / every
+                # other bit symbolic. thorough additionally runs airborne_position with fully symbolic CPR fields
+                # (15 min); position() / surface_position() with symbolic CPR fields exceed 2 h and are left to C03/C05.
+                seeds = [(0, 0, 0, 0), (131071, 131071, 131071, 131071)] + \
+                    [tuple(rnd.getrandbits(17) for _ in range(4)) for _ in range(1 if tier == "quick" else 8)]
+                out.append(("%s-%d" % (name, ln), {"fn": name, "len": ln, "cpr_seeds": seeds, "weight": 50}))
                 continue
             out.append(("%s-%d" % (name, ln), {"fn": name, "len": ln,
                                                "weight": 90 if name in ("adsb.callsign", "tell") else 0}))
